@@ -83,6 +83,11 @@ CLAIMED = {
    technique="explicit-state search over request sequences against the real gRPC service handlers (in-memory streams) on a real engine, states de-duplicated by implementation state, differential oracle against the embedded API and a map model",
    text="All sequences up to depth 4 (5 thorough) over 20 (23) requests - puts incl. empty value and boundary sizes, deletes, batches (repeated keys, 1000 ops), transactions by handle (begin rw/ro, put, delete, commit, rollback, finished and unknown handles) and 8 kinds of requests outside the documented limits that must be rejected - are sent to the real KevoServiceServer; after every sequence Get/TxGet of 7 keys, all 32 combinations of scan options for Scan/TxScan, limit, GetNodeInfo, finished handles and the embedded reads on the same engine are compared with the model (prefix/suffix override start/end as documented); rejected requests must change nothing, including the open transaction.",
    note="Handlers are called directly (marshalling not exercised; empty bytes passed as nil like protobuf delivers them). Compact/GetStats are administrative and excluded."),
+ "C16": dict(
+   level="model_checking", design="§3 C16",
+   technique="computed mutator set (differential run on a read-write twin) over entry points enumerated by reflection, exhaustive interleaving exploration of the replication applier against client mutators, and role reporting of the real replication manager in its three modes",
+   text="Every entry point of *EngineFacade, Transaction and *KevoServiceServer (27 bodies; a new method without body or recorded exclusion is a HARNESS-ERROR) is run on a read-write twin and on the same state in read-only mode: calls that change scan or log on the twin (12 mutators) must return a read-only error and change nothing on the replica, the *Internal bypasses must still take effect, reads must work. The applier (2 replicated entries) is explored against client Put/Delete/BatchWrite over all interleavings up to 2 (3) deviations. replication.Manager is started in standalone/primary/replica mode: GetNodeInfo must report role, primary address and read_only truthfully and a started replica must reject client writes.",
+   note="The window inside Manager.Start before the read-only switch is not flagged. The manager unit uses real loopback listeners."),
 }
 
 ALL = ["C%02d" % i for i in range(1, 21)]
